@@ -28,15 +28,15 @@ ASSUMPTIONS = [
     'holds_C06 makes no claim for sources the reference grammar leaves undefined (Spec/LuaLex.v header), e.g. unknown '
     'escapes, raw line breaks inside quoted strings, lone carriage returns',
 ]
-PARTIAL = ('C06_echo is proved for the single-chunk path; for per-line chunks the equality of the two token lists '
-           '(C07_chunking) is validated by the correspondence only, while C06_cover / C06_code_is_extent / '
-           'C06_echo_is_codes hold for any chunking. holds_C06_relex (the written text is itself in the dialect with the '
-           'same views) is evaluated on the implementation but not proved for the model.')
+PARTIAL = ('holds_C06_relex (the written text is itself in the dialect and re-lexes to the same views) is evaluated on the '
+           'implementation but not proved for the model; everything else of the statement is proved (C06_echo for one '
+           'chunk, C06_echo_chunks / C06_echo_chunking for per-line chunks). Sources the reference grammar leaves '
+           'undefined are outside the claim of C06_echo (C06_cover and C06_code_is_extent hold for every lexable input).')
 CLAIM = dict(
     text=("Theorems (Coq, closed under the global context) about an executable model of the lexer, Token.code / "
           "TokString.code (over the escape tables regenerated from lexer.py on every run) and LuaEchoWriter.to_lines: "
           "C06_echo - for EVERY byte string given as one chunk, if the reference grammar is defined on it the model "
-          "lexes it and the written text passes holds_C06, the same predicate the extracted monitor applies to the "
+          "(or as per-line chunks: C06_echo_chunks, C06_echo_chunking) lexes it and the written text passes holds_C06, the same predicate the extracted monitor applies to the "
           "implementation's output (byte-for-byte outside quoted strings; inside, the same quote and a spelling the "
           "reference decoder reads back as the same bytes); C06_cover and C06_code_is_extent for any chunking and any "
           "lexable input; C06_echo_is_codes; C06_string_reencode (decode(TokString.code(v)) = v for every byte string, "
